@@ -292,7 +292,10 @@ class DtypeDefinition:
         if not self.variable_length:
             if self.allowed_lengths.only_one_value():
                 def read_fn(bs, start):
-                    return self.get_fn(bs[start:start + self.allowed_lengths.values[0]])
+                    length = self.allowed_lengths.values[0]
+                    if len(bs) < start + length:
+                        raise bitstring.ReadError(f"Needed a length of at least {length} bits, but only {len(bs) - start} bits were available.")
+                    return self.get_fn(bs[start:start + length])
             else:
                 def read_fn(bs, start, length):
                     if len(bs) < start + length:
